@@ -21,7 +21,7 @@ def _fn(repo, q):
     return node
 
 
-@contract(CLI, '<cli-structure>', props=['C07', 'C18', 'C14', 'C02'])
+@contract(CLI, '<cli-structure>', props=['C07', 'C18', 'C14', 'C02', 'C16', 'C19', 'C13'])
 def _(c):
     c.trusted = True
 
@@ -79,3 +79,24 @@ def _(c):
             and "if args.openpgp_id is not None:\n        self.init_kwargs['openpgp_keyid'] = args.openpgp_id" in src
         return ok, {}
     c.const('signing-options-reach-the-loader-only-when-given', sign_options, props=['C14'])
+
+
+    def options_are_forwarded_independently(repo):
+        """every explicit update option reaches the loader's constructor on its own: one top-level `if args.X is not None`
+        per option in BaseUpdateMixin.parse_args, not nested under another option's test"""
+        fn = _fn(repo, 'BaseUpdateMixin.parse_args')
+        want = {'hashes': ("hashes", "args.hashes.split()"), 'compress_watermark': ("compress_watermark", "args.compress_watermark"),
+                'compress_format': ("compress_format", "args.compress_format"), 'openpgp_id': ("openpgp_keyid", "args.openpgp_id"),
+                'profile': ("profile", "get_profile_by_name(args.profile)"), 'sign': ("sign_openpgp", "args.sign")}
+        got = {}
+        for st in fn.body:
+            if isinstance(st, ast.If) and ast.unparse(st.test).startswith('args.') and ast.unparse(st.test).endswith(' is not None'):
+                opt = ast.unparse(st.test)[5:-12]
+                for sub in ast.walk(st):
+                    if isinstance(sub, ast.Assign) and ast.unparse(sub.targets[0]).startswith("self.init_kwargs["):
+                        key = ast.unparse(sub.targets[0])[18:-2]
+                        got.setdefault(opt, []).append((key, ast.unparse(sub.value)))
+        bad = {o: got.get(o) for o, kv in want.items() if got.get(o) != [kv]}
+        return not bad, {'bad': bad, 'found': got}
+    c.const('explicit-update-options-reach-the-loader-independently-of-each-other', options_are_forwarded_independently,
+            props=['C19', 'C13', 'C14'])
